@@ -216,3 +216,34 @@ Proof.
 Qed.
 End Add.
 End C09P.
+
+(* ---- the switch seen from several threads (Super.switch_trace_mismatches): the model has ONE cell, so when a recorded trace has
+   no mismatch, every thread saw after every step the position determined by the switch operations so far, whoever issued them *)
+Lemma trace_ops_app a b : trace_ops (a ++ b) = (trace_ops a ++ trace_ops b)%list.
+Proof. induction a as [|s r IH]; [reflexivity|]. simpl. destruct (ts_op s); simpl; rewrite IH; reflexivity. Qed.
+
+Lemma sw_next_run st s : sw_next st (ts_op s) = sw_run st (trace_ops [s]).
+Proof. unfold sw_next, sw_run. simpl. destruct (ts_op s); reflexivity. Qed.
+
+Lemma trace_sound : forall l st i, switch_trace_mismatches st i l = [] ->
+  forall pre s post, l = (pre ++ s :: post)%list -> forall tv, In tv (ts_seen s) ->
+  snd tv = sw_run st (trace_ops (pre ++ [s])).
+Proof.
+  induction l as [|x r IH]; intros st i H pre s post E tv Hin.
+  - destruct pre; discriminate.
+  - simpl in H. destruct (forallb (fun tv0 => Bool.eqb (snd tv0) (sw_next st (ts_op x))) (ts_seen x)) eqn:Hall; [|discriminate].
+    destruct pre as [|p pre'].
+    + simpl in E. injection E as E1 E2. subst x. simpl app. rewrite <- sw_next_run.
+      rewrite forallb_forall in Hall. specialize (Hall tv Hin). apply eqb_prop in Hall. exact Hall.
+    + simpl in E. injection E as E1 E2. subst x.
+      rewrite (IH _ _ H pre' s post E2 tv Hin).
+      change ((p :: pre') ++ [s])%list with ([p] ++ (pre' ++ [s]))%list. rewrite (trace_ops_app [p]).
+      unfold sw_run. rewrite fold_left_app. fold (sw_run st (trace_ops [p])). rewrite <- sw_next_run. reflexivity.
+Qed.
+
+(* the thread that issues an operation plays no role: two traces with the same operations end in the same position *)
+Lemma trace_thread_irrelevant st l1 l2 : map ts_op l1 = map ts_op l2 -> sw_run st (trace_ops l1) = sw_run st (trace_ops l2).
+Proof.
+  intro E. f_equal. revert l2 E. induction l1 as [|a r IH]; intros [|b q] E; try discriminate; [reflexivity|].
+  simpl in E. injection E as E1 E2. simpl. rewrite E1. destruct (ts_op b); [f_equal|]; apply IH; exact E2.
+Qed.
